@@ -166,10 +166,27 @@ pub fn record(seed: u64, thorough: bool, wd: &crate::rec_more::Watchdog) -> (Vec
             let solver = clarabel::solver::DefaultSolver::new(&P, &p.q, &A, &p.b, &p.clarabel_cones(), p.settings());
             clarabel::verif::chordal_view(&solver.data).map(|v| (v, solver.data.m, solver.data.cones.len()))
         }));
+        // how many cones SHOULD be decomposed (no merging): PSD cones of dimension > 3 whose aggregate pattern (rows with an
+        // entry in A or in b) splits into more than one clique
+        let mut expected = 0usize;
+        if merge == "none" {
+            let ad = p.A.to_dense();
+            let mut off = 0;
+            for c in &p.cones {
+                if let crate::problem::ConeSpec::Psd(d) = c {
+                    if *d > 3 {
+                        let mask: Vec<bool> = (0..c.numel()).map(|t| ad[off + t].iter().any(|v| *v != 0.0) || p.b[off + t] != 0.0).collect();
+                        if let Ok(t) = catch_unwind(AssertUnwindSafe(|| analyse_pattern(&mask, *d, "none"))) { if t.n_cliques > 1 { expected += 1; } }
+                    }
+                }
+                off += c.numel();
+            }
+        }
         match res {
             Err(e) => out.push(json!({"ev": "Panic", "id": id, "n": 0, "edges": [], "merge": merge, "msg": crate::rec_ipm::panic_msg(e), "problem": serde_json::to_value(&p).unwrap()})),
-            Ok(None) => {}
+            Ok(None) => { if merge == "none" { out.push(json!({"ev": "Decomposed", "id": id, "merge": merge, "trees": 0, "expected": expected})); } }
             Ok(Some((v, m2, ncones2))) => {
+                if merge == "none" { out.push(json!({"ev": "Decomposed", "id": id, "merge": merge, "trees": v.trees.len(), "expected": expected})); }
                 if v.trees.len() > 1 { built_multi += 1; }
                 let decomposed: Vec<usize> = v.trees.iter().map(|(i, _)| *i).collect();
                 let other_rows: usize = v.init_cones.iter().enumerate().filter(|(i, _)| !decomposed.contains(i)).map(|(_, c)| crate::problem::ConeSpec::from_clarabel(c).numel()).sum();
